@@ -289,6 +289,12 @@ class Interp:
                 return BV(1, [c_not(self.truth(a))])
             if op == '+':
                 return self.eval(n['inner'][0], env, depth)
+            if op == '-':
+                a = self.eval(n['inner'][0], env, depth)
+                x = bv_const(a)
+                if x is not None:
+                    w_ = info[0] if info else a.w
+                    return const_bv((-x) & ((1 << w_) - 1), w_, info[1] if info else a.signed)
             return top_bv(info[0] if info else 64)
         if k == 'ConditionalOperator':
             c = self.truth(self.eval(n['inner'][0], env, depth))
